@@ -50,6 +50,7 @@ class Gen:
     def aggregate(self, depth=0, top=True):
         d = self.draw
         td = TypeDef()
+        subreq = [0]    # strictest explicit alignment found in nested types
         kind = "struct" if d(st.integers(0, 4)) else "union"
         tag = self.uid("S" if kind == "struct" else "U")
         td.name = "%s %s" % (kind, tag)
@@ -82,6 +83,7 @@ class Gen:
                 td.flags.add("array")
             elif k <= 7 and depth < 3:
                 sub = self.aggregate(depth + 1, top=False)
+                subreq.append(getattr(sub, "areq", 0))
                 form = d(st.sampled_from(["named", "named", "array", "anon"]))
                 if sub.has_fam:
                     form = "skip"
@@ -106,7 +108,7 @@ class Gen:
                     self.n += 1
                     body2, paths2, bf2, leaf2 = _rename(body, sub, ren)
                     # an alignment specifier on the anonymous member itself (not weaker than any member's natural alignment)
-                    al = "_Alignas(%d) " % d(st.sampled_from([64, 128])) if d(st.integers(0, 3)) == 0 else ""
+                    al = "_Alignas(%d) " % d(st.sampled_from([128] if sub.areq > 64 else [64, 128])) if d(st.integers(0, 3)) == 0 else ""
                     if al:
                         td.flags.add("anonymous-alignas")
                     members.append("%s%s %s;" % (al, sub.name.split()[0], body2))
@@ -154,6 +156,8 @@ class Gen:
         td.nmembers = len(members)
         td.text = "%s%s %s { %s }" % (kind, attr, tag, " ".join(members))
         td.flags.add(kind)
+        import re
+        td.areq = max([int(x) for x in re.findall(r"_Alignas\((\d+)\)", td.text)] + subreq)
         return td
 
     def _alignas(self, al, nat):
